@@ -1,7 +1,7 @@
 #!/bin/bash
 # seedtest.sh <worktree dir> <seed id> <property> [more properties]: confirm a seeded change
 # (compiles, suite passes, demonstration fails with / passes without it), run the registered
-# checks against it on /repo (applied, then undone) and archive it under /verif/seeded/<id>/.
+# checks against the worktree (gcv -repo) and archive it under /verif/seeded/<id>/.
 export GOFLAGS=-mod=mod GOPROXY=off GOSUMDB=off GOTOOLCHAIN=local
 WT=$1; ID=$2; shift 2; PROPS="$@"
 OUT=/verif/seeded/$ID; mkdir -p $OUT
@@ -13,24 +13,24 @@ cp $DEMO $OUT/$(basename $DEMO)
 [ -f SEED_NOTES.md ] && cp SEED_NOTES.md $OUT/SEED_NOTES.md
 echo "== build"; go build ./... && BUILD=ok || BUILD=fail
 echo "== demo with change (must fail)"; go test -vet=off -count=1 $PKG >/tmp/seed_with.txt 2>&1 && WITH=pass || WITH=fail
-git stash -q
+git apply -R $OUT/patch.diff   # (not git stash: the stash is shared between worktrees)
+# bring the worktree to /repo's current commit (contracts added since the worktree was made)
+git checkout -q --detach $(git -C /repo rev-parse HEAD)
 echo "== demo without change (must pass)"; go test -vet=off -count=1 $PKG >/tmp/seed_without.txt 2>&1 && WITHOUT=pass || WITHOUT=fail
-git stash pop -q
+git apply $OUT/patch.diff
 mv $DEMO /tmp/seed_demo_aside
 echo "== suite with change (must pass)"; go test -vet=off -count=1 ./... >/tmp/seed_suite.txt 2>&1 && SUITE=pass || SUITE=fail
 mv /tmp/seed_demo_aside $DEMO
 echo "build=$BUILD demo_with=$WITH demo_without=$WITHOUT suite=$SUITE"
-if [ -n "$(git -C /repo status --porcelain)" ]; then echo "refusing: /repo has uncommitted changes (commit contract edits first)"; exit 2; fi
-cd /repo && git apply $OUT/patch.diff || { echo "patch does not apply to /repo"; exit 2; }
+# the checks run against the scratch worktree itself (gcv -repo): /repo is not touched
 RES=""
 for P in $PROPS; do
-  L=$(bash /verif/checks/run.sh $P quick 2>&1 | grep -E "^VIOLATION|^UNDECIDED|^property" | head -6)
+  L=$(/verif/bin/gcv -repo $WT -verif /verif -prop $P -tier quick 2>&1 | grep -E "^VIOLATION|^UNDECIDED|^property" | head -6)
   echo "$L"
-  if echo "$L" | grep -q "^VIOLATION property=$P"; then RES="$RES $P:caught"; else RES="$RES $P:missed"; fi
+  if echo "$L" | grep -q "^VIOLATION property=$P"; then RES="$RES $P:caught"; elif echo "$L" | grep -q "^UNDECIDED"; then RES="$RES $P:undecided"; else RES="$RES $P:missed"; fi
   echo "$L" > $OUT/check_$P.txt
 done
-git -C /repo checkout -- . 
-# the runs above were made on a deliberately broken tree: do not leave their evidence / replay files behind
+# the runs above were made on a deliberately broken tree: do not leave their evidence files behind
 git -C /verif checkout -- evidence 2>/dev/null
 python3 - <<PY
 import json
